@@ -36,7 +36,7 @@ def _strategy(draw):
     labels = []
     if route == "graph" and draw(st.integers(0, 2)) == 0 and n >= 2:
         for _ in range(draw(st.integers(1, 3))):
-            labels.append([draw(st.integers(0, n - 2)), draw(st.sampled_from(["a", "b"]))])
+            labels.append([draw(st.integers(0, n - 2)), draw(st.sampled_from(["a", "b", "a", 0, False, "", 0.0]))])
     # node keys of the input graph need not start at 0, and the edge records may come in any order
     key_offset = draw(st.sampled_from([0, 0, 1, 7])) if route in ("graph", "gen_params") else 0
     edge_order = list(draw(st.permutations(range(max(n - 1, 0))))) if route == "graph" and draw(st.booleans()) else None
